@@ -15,6 +15,8 @@ EXPLANATION = (
     'intersections of the specified rank lists: factor_worker in DP(inv) & MP(self), src_grad_worker in DP(self) & MP(inv), '
     'is_grad_worker tests inv in MP(self).  That each intersection has exactly one element is topology arithmetic and not decided.')
 
+NOT_DECIDED = 'cardinality 1 of the rank-list intersections (topology arithmetic)'
+
 
 def run(ctx: Ctx) -> None:
     ctx.assumptions |= {'A2', 'A5'}
